@@ -310,6 +310,30 @@ func (c *Ctx) condKind(cd Cond, line ssa.Value) string {
 		if cal := v.Call.StaticCallee(); cal != nil && cal.Name() == c.nm("argslen") {
 			return "argslen"
 		}
+		// a predicate method of the client that answers "is there a tracker": every return is st != nil
+		if cal := v.Call.StaticCallee(); cal != nil && !v.Call.IsInvoke() && c.InModuleFn(cal) && cal.Package() == c.Client && cal.Blocks != nil && len(cal.Params) == 1 {
+			nR, all := 0, true
+			funcInstrs(cal, func(in ssa.Instruction) {
+				rt, isR := in.(*ssa.Return)
+				if !isR || len(rt.Results) != 1 {
+					return
+				}
+				nR++
+				bo, isB := retVal(rt, 0).(*ssa.BinOp)
+				if !isB || bo.Op != token.NEQ {
+					all = false
+					return
+				}
+				f1, _ := loadedField(bo.X)
+				f2, _ := loadedField(bo.Y)
+				if !((f1 == a.St && isNilConst(bo.Y)) || (f2 == a.St && isNilConst(bo.X))) {
+					all = false
+				}
+			})
+			if all && nR > 0 {
+				return "tracking"
+			}
+		}
 	case *ssa.BinOp:
 		isSt := func(x ssa.Value) bool { fv, _ := loadedField(x); return fv == a.St }
 		if (isSt(v.X) && isNilConst(v.Y)) || (isSt(v.Y) && isNilConst(v.X)) {
@@ -1420,7 +1444,7 @@ func (c *Ctx) afterPortNormalisation(fn *ssa.Function, at ssa.Instruction) (bool
 
 // framingRule: socket reads in the receive goroutine are delimiter-framed.
 func (c *Ctx) framingRule(rule string) {
-	r, a := c.R, c.A
+	r := c.R
 	var producer *ssa.Function
 	if pf := c.producerFrame(); pf != nil {
 		producer = pf.Member
@@ -1450,7 +1474,7 @@ func (c *Ctx) framingRule(rule string) {
 		good := false
 		if n == "(*bufio.Reader).ReadString" || n == "(*bufio.Reader).ReadBytes" {
 			if k, ok := constInt(cc.Args[1]); ok && k == '\n' {
-				good = c.derivesFromField(cc.Args[0], a.IO)
+				good = c.derivesFromIO(cc.Args[0])
 			}
 		}
 		if good {
@@ -3318,18 +3342,12 @@ func (c *Ctx) trackerInstalledFreshRule(rule string) {
 					}
 				}
 				call, isC := o.(*ssa.Call)
-				if !isC || call.Call.StaticCallee() == nil || call.Call.StaticCallee().Package() != c.State || call.Call.StaticCallee().Name() != "NewTracker" || len(call.Call.Args) != 1 {
+				if !isC {
 					okS, why = false, "installs "+o.String()+", not a tracker made here for the current nick"
 					continue
 				}
-				seeded := false
-				if f1, base := loadedField(call.Call.Args[0]); f1 != nil && isStringType(f1.Type()) {
-					if f2, _ := loadedField(base); f2 == a.CfgMe {
-						seeded = true
-					}
-				}
-				if !seeded {
-					okS, why = false, "the tracker is made for "+call.Call.Args[0].String()+", not Config.Me's nick"
+				if ok2, w2 := c.newTrackerForMe(call, nil, 0); !ok2 {
+					okS, why = false, w2
 				}
 			}
 			r.Add(rule, fmt.Sprintf("tracker-install:%s#%d", c.FuncKey(fn), n), c.InstrPos(st), c.FuncKey(fn), "an installed tracker is new and made for the client's current nick", okS, why)
@@ -3431,4 +3449,74 @@ func (c *Ctx) isCapListOf(v ssa.Value, fn *ssa.Function, depth int) bool {
 		}
 	})
 	return all && n > 0
+}
+
+// newTrackerForMe: call yields a tracker made by state.NewTracker for the
+// nick of Config.Me: NewTracker(<Config.Me>.Nick) itself, or a helper of the
+// client package every return of which is such a call on the record it is
+// handed, called with Config.Me. me != nil stands for "the record" inside a
+// helper (its parameter).
+func (c *Ctx) newTrackerForMe(call *ssa.Call, me ssa.Value, depth int) (bool, string) {
+	a := c.A
+	if depth > 2 || call.Call.IsInvoke() || call.Call.StaticCallee() == nil {
+		return false, "installs " + call.String() + ", not a tracker made here for the current nick"
+	}
+	isMe := func(v ssa.Value) bool {
+		if me != nil {
+			return v == me
+		}
+		f2, _ := loadedField(v)
+		return f2 == a.CfgMe
+	}
+	cal := call.Call.StaticCallee()
+	if cal.Package() == c.State && cal.Name() == "NewTracker" && len(call.Call.Args) == 1 {
+		if f1, base := loadedField(call.Call.Args[0]); f1 != nil && isStringType(f1.Type()) && isMe(base) {
+			return true, "NewTracker(Config.Me.Nick)"
+		}
+		return false, "the tracker is made for " + call.Call.Args[0].String() + ", not Config.Me's nick"
+	}
+	if !c.InModuleFn(cal) || cal.Package() != c.Client || cal.Blocks == nil {
+		return false, "installs the result of " + calleeName(&call.Call) + ", not a tracker made here for the current nick"
+	}
+	// a helper: find the parameter that is handed Config.Me (or the record)
+	var pm ssa.Value
+	for i, av := range call.Call.Args {
+		if isMe(av) && i < len(cal.Params) {
+			pm = cal.Params[i]
+		}
+	}
+	if pm == nil {
+		return false, "the helper " + c.FuncKey(cal) + " is not handed Config.Me"
+	}
+	n, ok, why := 0, true, ""
+	funcInstrs(cal, func(in ssa.Instruction) {
+		rt, isR := in.(*ssa.Return)
+		if !isR || len(rt.Results) != 1 {
+			return
+		}
+		n++
+		for _, o := range c.originsLocal(retVal(rt, 0)) {
+			for {
+				if mi, isM := o.(*ssa.MakeInterface); isM {
+					o = mi.X
+				} else if ci, isCI := o.(*ssa.ChangeInterface); isCI {
+					o = ci.X
+				} else {
+					break
+				}
+			}
+			c2, isC := o.(*ssa.Call)
+			if !isC {
+				ok, why = false, c.FuncKey(cal)+" returns "+o.String()
+				continue
+			}
+			if ok2, w2 := c.newTrackerForMe(c2, pm, depth+1); !ok2 {
+				ok, why = false, w2
+			}
+		}
+	})
+	if n == 0 {
+		return false, c.FuncKey(cal) + " has no return"
+	}
+	return ok, why
 }
